@@ -68,10 +68,14 @@ def make_mapped_model(cfg, seed, rich=False):
     nsl = st.sl_settings.nfeat
     fl = FeatureList([UMap(i, 0.3 + 0.1 * (i % 5)) if i < nsl else SignedUMap(i, 0.5 + 0.2 * (i % 4)) for i in range(1, nf)])
     evs = make_evaluators(cfg["eval"], fl.nfeat, rng)
+    base = cfg.get("base", "lda")
     if cfg["mix"] == "libxc2":
-        mk = MappedDFTKernel2(evs, fl, cfg["mode"], "GGA_X_PBE", None)
+        mul, add = {"lda": ("GGA_X_PBE", None), "gga": ("GGA_X_PBE", "GGA_C_PBE"), "ssos": ("SS_GGA_C_PBE", "OS_GGA_C_PBE")}[base]
+        mk = MappedDFTKernel2(evs, fl, cfg["mode"], mul, add)
         return MappedXC2([mk], st)
-    mk = MappedDFTKernel(evs, fl, cfg["mode"], baselines.lda_x, baselines.zero_xc)
+    mul, add = {"lda": (baselines.lda_x, baselines.zero_xc), "gga": (baselines.gga_x_pbe, baselines.gga_c_pbe),
+                "chachiyo": (baselines.gga_x_chachiyo, baselines.zero_xc), "damp": (baselines.nlda_x_damp, baselines.gga_c_pbe)}[base]
+    mk = MappedDFTKernel(evs, fl, cfg["mode"], mul, add)
     return MappedXC([mk], st)
 
 
